@@ -904,7 +904,16 @@ impl Monitor for Parsing {
                             break d;
                         }
                     };
-                    let opts = RenderOpts { fragment: false, allow_decl: true, allow_bom: false, encoding_label: enc.label().map(|s| s.to_string()), ..Default::default() };
+                    // the declaration names the encoding by its usual label or by another label of the same encoding
+                    let label = enc.label().map(|l| {
+                        let alt: &[&str] = match l {
+                            "ISO-8859-1" => &["ISO-8859-1", "iso-8859-1", "iso_8859-1", "ISO_8859-1", "latin1"],
+                            "windows-1252" => &["windows-1252", "cp1252", "x-cp1252"],
+                            _ => &[],
+                        };
+                        if alt.is_empty() { l.to_string() } else { rng.pick(alt).to_string() }
+                    });
+                    let opts = RenderOpts { fragment: false, allow_decl: true, allow_bom: false, encoding_label: label, ..Default::default() };
                     let r = render::render(&doc, &mut RandomChoices(rng), &opts);
                     ctx.nontrivial(crate::rng::hash_str(&r.text));
                     self.check(ctx, &doc, &r, Ep::Bytes(enc), true);
